@@ -29,6 +29,10 @@ func execClnt(line string) (string, bool) {
 	if strings.HasPrefix(line, "clntio ") {
 		return "accept", true // the observation is the line; the driver is the judge
 	}
+	if strings.HasPrefix(line, "reqlist ") {
+		_, obs := runReqList(strings.Fields(line)[1:], nil)
+		return obs, true
+	}
 	return "*", true
 }
 
@@ -170,6 +174,7 @@ func checkResult(kind string, i int, r callRes, msize uint32) string {
 // ---------------- C09 ----------------
 
 func genC09(c *Ctx) {
+	defer genC09list(c)
 	i := 0
 	for k := 0; k < c.scale(150, 4000) && !c.stop(); k++ {
 		i++
@@ -811,4 +816,147 @@ func (w *ioWatch) line() string {
 		return ""
 	}
 	return "clntio " + strings.Join(w.toks, " ")
+}
+
+// runReqList drives one client through Rpcnb / reply / ReqFree from a single goroutine and, after every
+// step, reads the pending list as linked (forwards from reqfirst, backwards from reqlast). Req objects
+// are numbered in the order they are first seen, so a recycled one keeps its number. With ops == nil
+// the steps are chosen by pick (true: one more call; false: answer the n-th outstanding call);
+// otherwise the given ops (a<r>, u<r>, f<r>) are executed. Returns the ops and the observations.
+func runReqList(ops []string, pick func(outstanding int) (bool, int, bool)) ([]string, string) {
+	msize := uint32(512)
+	a, b := net.Pipe()
+	defer a.Close()
+	defer b.Close()
+	p := newPeer(b, msize)
+	cl, err := g.Connect(pconn{a}, msize, true)
+	if err != nil {
+		return nil, "connect-failed"
+	}
+	defer cl.Unmount()
+	ids := map[*g.Req]int{}
+	idOf := func(q *g.Req) int {
+		if v, ok := ids[q]; ok {
+			return v
+		}
+		ids[q] = len(ids) + 1
+		return ids[q]
+	}
+	type outst struct {
+		req *g.Req
+		pr  peerReq
+	}
+	var out []outst
+	var done, obs []string
+	show := func(l []*g.Req) string {
+		if len(l) == 0 {
+			return "-"
+		}
+		x := make([]string, len(l))
+		for i, q := range l {
+			x[i] = fmt.Sprint(idOf(q))
+		}
+		return strings.Join(x, ",")
+	}
+	snap := func(op string) {
+		vi := g.VerifClnt(cl)
+		done = append(done, op)
+		obs = append(obs, show(vi.Forward)+"/"+show(vi.Backward))
+	}
+	call := func(n int) bool {
+		q := cl.ReqAlloc()
+		q.Tc = cl.NewFcall()
+		g.PackTread(q.Tc, 5, uint64(n), 10)
+		q.Done = make(chan *g.Req, 1)
+		if cl.Rpcnb(q) != nil {
+			return false
+		}
+		select {
+		case pr := <-p.reqs:
+			out = append(out, outst{q, pr})
+		case <-time.After(2 * time.Second):
+			return false
+		}
+		snap(fmt.Sprintf("a%d", idOf(q)))
+		return true
+	}
+	answer := func(x int) bool {
+		o := out[x]
+		out = append(out[:x], out[x+1:]...)
+		b.Write(reply("ok", o.pr, msize))
+		select {
+		case <-o.req.Done:
+		case <-time.After(2 * time.Second):
+			return false
+		}
+		snap(fmt.Sprintf("u%d", idOf(o.req)))
+		cl.ReqFree(o.req)
+		snap(fmt.Sprintf("f%d", idOf(o.req)))
+		return true
+	}
+	if ops == nil {
+		for n := 0; ; n++ {
+			more, x, stop := pick(len(out))
+			if stop {
+				break
+			}
+			if (more && !call(n)) || (!more && !answer(x)) {
+				return done, "stuck"
+			}
+		}
+	} else {
+		for n, op := range ops {
+			id := int(atou(op[1:], 31))
+			switch op[0] {
+			case 'a':
+				if !call(n) {
+					return done, "stuck"
+				}
+			case 'u':
+				x := -1
+				for k, o := range out {
+					if idOf(o.req) == id {
+						x = k
+					}
+				}
+				if x < 0 || !answer(x) {
+					return done, "stuck"
+				}
+			}
+			// f<r> follows its u<r>: answer() did it
+		}
+	}
+	return done, strings.Join(obs, "|")
+}
+
+// the pending list at the pointer level against G9.ReqList: random interleavings of new calls and replies
+// (in any order) with recycled requests
+func genC09list(c *Ctx) {
+	for k := 0; k < c.scale(60, 1500) && !c.stop(); k++ {
+		r := c.rng(900000 + k)
+		steps := 6 + r.Intn(50)
+		maxOut := 1 + r.Intn(8)
+		c.begin(fmt.Sprintf("clntjudge C09 reqlist seed=%d", 900000+k))
+		n := 0
+		ops, obs := runReqList(nil, func(outstanding int) (bool, int, bool) {
+			n++
+			if n > steps {
+				return false, 0, true
+			}
+			if outstanding == 0 || (outstanding < maxOut && r.Intn(2) == 0) {
+				return true, 0, false
+			}
+			return false, r.Intn(outstanding), false
+		})
+		if obs == "stuck" || obs == "connect-failed" {
+			c.oracleFail("C09/reqlist/"+obs, fmt.Sprintf("after %s: a call was not handed to the peer, or its reply did not reach it", strings.Join(ops, " ")),
+				fmt.Sprintf("clntjudge C09 reqlist seed=%d", 900000+k))
+			continue
+		}
+		if len(ops) == 0 {
+			continue
+		}
+		c.count("reqlist")
+		c.emit("reqlist "+strings.Join(ops, " "), obs, true)
+	}
 }
